@@ -363,6 +363,7 @@ func checkC12(w *World, r *Report) {
 	checkMacroKeepsDeclaration(w, r)
 	checkMacroTableWriters(w, r)
 	checkQualifiedCallsKeepQualifier(w, r)
+	checkImportBindsVariable(w, r)
 	checkChainWalkBounds(w, r, "R12.8")
 }
 
@@ -1206,4 +1207,90 @@ func checkQualifiedCallsKeepQualifier(w *World, r *Report) {
 		})
 	}
 	r.Counts["macro lookups by a call node's name"] = n
+}
+
+// checkImportBindsVariable — R12.12: `import … as alias` makes the alias a variable.  Every
+// successful return of ImportNode.Render lies behind a SetVariable call on the rendering context
+// whose name is the node's alias (directly or in a helper the node is handed to).  Variables are
+// what child contexts, parent() and includes copy or look up; an alias kept anywhere else (the
+// macro table, a side map) is missing wherever a context is derived from the variables, so the
+// same macro call works in a template and fails in a block reached through parent().
+func checkImportBindsVariable(w *World, r *Report) {
+	setVar := w.method("RenderContext", "SetVariable")
+	n := 0
+	for _, fn := range w.pkgFuncs() {
+		if fn.Name() != "Render" || fn.Signature.Recv() == nil || !isNamed(fn.Signature.Recv().Type(), twigPath, "ImportNode") || fn.Synthetic != "" {
+			continue
+		}
+		recv := fn.Params[0]
+		var binds func(g *ssa.Function, node ssa.Value, depth int) func(ssa.Instruction) bool
+		binds = func(g *ssa.Function, node ssa.Value, depth int) func(ssa.Instruction) bool {
+			return func(in ssa.Instruction) bool {
+				c, ok := in.(ssa.CallInstruction)
+				if !ok {
+					return false
+				}
+				if _, isDefer := in.(*ssa.Defer); isDefer {
+					return false
+				}
+				if calleeFunc(c) == setVar {
+					args := callArgs(c)
+					if len(args) >= 1 {
+						if base, ok := fieldLoad(unspill(args[0]), "ImportNode", "module"); ok && sameValue(origin(base), origin(node)) {
+							return true
+						}
+					}
+					return false
+				}
+				// a helper that is handed the node and binds on every path to its successful returns
+				h := c.Common().StaticCallee()
+				if h == nil || !isTwigFn(h) || len(h.Blocks) == 0 || depth > 2 {
+					return false
+				}
+				for i, a := range c.Common().Args {
+					if sameValue(origin(a), origin(node)) && i < len(h.Params) {
+						all, nret := true, 0
+						instrsOf(h, func(y ssa.Instruction) {
+							ret, isRet := y.(*ssa.Return)
+							if !isRet {
+								return
+							}
+							ei := errResultIndex(h.Signature)
+							res := retResults(ret)
+							if ei >= 0 && ei < len(res) && !isNilConst(res[ei]) {
+								return // a failing return
+							}
+							nret++
+							if f, _ := existsPathAvoiding(h, y, binds(h, h.Params[i], depth+1), nil); f {
+								all = false
+							}
+						})
+						if all && nret > 0 {
+							return true
+						}
+					}
+				}
+				return false
+			}
+		}
+		ei := errResultIndex(fn.Signature)
+		instrsOf(fn, func(in ssa.Instruction) {
+			ret, ok := in.(*ssa.Return)
+			if !ok {
+				return
+			}
+			res := retResults(ret)
+			if ei < 0 || ei >= len(res) || !isNilConst(res[ei]) {
+				return
+			}
+			n++
+			construct := "successful return lies behind SetVariable(alias, …)"
+			if found, path := existsPathAvoiding(fn, ret, binds(fn, recv, 0), nil); found {
+				r.bad("R12.12", ssaName(fn), construct, w.posOf(ret.Pos()), "the import can succeed without binding its alias as a variable (path "+strings.Join(path, " → ")+"): contexts derived from the variables — parent(), child contexts of blocks — do not see the module, so the same macro call fails depending on how the block is reached")
+			} else {
+				r.ok("R12.12", ssaName(fn), construct, w.posOf(ret.Pos()), "every path binds the alias", true)
+			}
+		})
+	}
+	r.floor("successful returns of ImportNode.Render", n, 1)
 }
